@@ -5,6 +5,7 @@ package main
 import (
 	"fmt"
 	"go/types"
+	"math/big"
 	"os"
 	"strconv"
 	"strings"
@@ -909,6 +910,130 @@ func (fc *FC) isHeaderPhi(p *ssa.Phi) bool {
 	return false
 }
 
+// latch: a boolean loop-carried flag that starts at `init` and whose flipped
+// state ends the loop (so it is flipped at most once, by the last iteration): the
+// single-exit way of writing an early return. flip is the condition, at an
+// iteration's loop-carried values, under which that iteration flips it.
+type latch struct {
+	atom *RF
+	init bool
+	flip *RF
+	dead bool // once flipped, the function's result no longer depends on anything the loop carries
+}
+
+// latchFlags: the latch flags among the header phis of the loop headed by hdr.
+func (fc *FC) latchFlags(hdr *ssa.BasicBlock) []latch {
+	s := fc.X.S
+	var out []latch
+	var loop *Loop
+	for _, l := range fc.Ctx.Loops() {
+		if l.Header == hdr {
+			loop = l
+		}
+	}
+	if loop == nil {
+		return nil
+	}
+	for _, in := range hdr.Instrs {
+		ph, ok := in.(*ssa.Phi)
+		if !ok {
+			break
+		}
+		if bt, ok := ph.Type().Underlying().(*types.Basic); !ok || bt.Kind() != types.Bool {
+			continue
+		}
+		F := fc.Val(ph)
+		at := F.SingleAtom()
+		if at == nil || fc.X.phiOf[at.ID] != ph {
+			continue
+		}
+		var ini, nx *RF
+		func() {
+			defer func() { recover() }()
+			ini, nx = fc.Recurrence(F)
+		}()
+		if ini == nil || nx == nil {
+			continue
+		}
+		var init bool
+		switch {
+		case ini.Equal(s.True()):
+			init = true
+		case ini.Equal(s.False()):
+			init = false
+		default:
+			continue
+		}
+		bv := func(v bool) *RF {
+			if v {
+				return s.True()
+			}
+			return s.False()
+		}
+		// (whether it could be set back is immaterial: the flipped flag ends the loop, below)
+		flip := nx.Subst(map[AtomID]*RF{at.ID: bv(init)})
+		if init {
+			flip = s.Not(flip)
+		}
+		// the flipped flag ends the loop: no back edge is taken with it flipped
+		cont := func() (c *RF) {
+			defer func() {
+				if recover() != nil {
+					c = nil
+				}
+			}()
+			return fc.ContinueCond(hdr)
+		}()
+		if cont == nil || !cont.Subst(map[AtomID]*RF{at.ID: bv(!init)}).Equal(s.False()) {
+			continue
+		}
+		l := latch{atom: F, init: init, flip: flip}
+		// dead: with the flag flipped, the result mentions nothing this loop carries
+		if v := fc.gatedReturns(fc.Fn.Blocks[0], 0, nil); v != nil {
+			fv := v.Subst(map[AtomID]*RF{at.ID: bv(!init)})
+			l.dead = true
+			for _, a := range fv.Atoms(true) {
+				if p2, ok := fc.X.phiOf[a.ID]; ok && loop.Body[p2.Block().Index] && p2.Parent() == fc.Fn {
+					l.dead = false
+				}
+				if _, ok := fc.X.memphiOf[a.ID]; ok {
+					l.dead = false
+				}
+			}
+		}
+		out = append(out, l)
+	}
+	return out
+}
+
+// noFlip: assumptions stating that no (dead) latch flag of the loops carrying
+// the given quantities is flipped in the current iteration and that none has
+// been flipped before — the only iterations whose accumulated values can
+// reach the result.
+func (fc *FC) noFlip(carried []*RF) []Assumption {
+	var as []Assumption
+	seen := map[*ssa.BasicBlock]bool{}
+	for _, c := range carried {
+		at := c.SingleAtom()
+		if at == nil {
+			continue
+		}
+		ph, ok := fc.X.phiOf[at.ID]
+		if !ok || seen[ph.Block()] {
+			continue
+		}
+		seen[ph.Block()] = true
+		pfc := fc.X.phiFC[at.ID]
+		for _, l := range pfc.latchFlags(ph.Block()) {
+			if !l.dead {
+				continue
+			}
+			as = append(as, Assumption{Cond: l.flip, True: false}, Assumption{Cond: l.atom, True: l.init})
+		}
+	}
+	return as
+}
+
 type recSpec struct{ name, init, next string }
 
 // LoopSystem: find an assignment of the named loop variables to the
@@ -921,12 +1046,27 @@ func (b *B) LoopSystem(rule, construct, where string, fc *FC, from *RF, env *Spe
 		b.R.Fail(rule, construct, where, fmt.Sprintf("expected %d loop-carried quantities, found %d", len(specs), len(phis)))
 		return nil
 	}
+	// an integer counter may play a stated role offset by one (a count of completed iterations
+	// where the formulas use the iteration number, or the reverse)
+	base := make([]int, len(phis)) // candidates sharing a loop-carried atom exclude one another
+	for i := range base {
+		base[i] = i
+	}
+	for i, p := range phis[:len(phis):len(phis)] {
+		if at := p.SingleAtom(); at != nil && at.Int {
+			phis = append(phis, p.Add(fc.X.S.Int(1)), p.Sub(fc.X.S.Int(1)))
+			base = append(base, i, i)
+		}
+	}
 	type rec struct{ init, next *RF }
 	recs := make([]rec, len(phis))
 	for i, p := range phis {
 		in, nx := fc.Recurrence(p)
 		recs[i] = rec{in, nx}
 	}
+	// iterations in which a latch flag flips (the single-exit form of an early return) carry
+	// values that can no longer reach the result: the recurrences are compared for the others
+	noflip := fc.noFlip(phis)
 	n := len(specs)
 	used := make([]bool, len(phis))
 	assign := make([]int, n)
@@ -946,15 +1086,19 @@ func (b *B) LoopSystem(rule, construct, where string, fc *FC, from *RF, env *Spe
 			if err != nil {
 				panic(specErr(err.Error()))
 			}
+			if !recs[assign[k]].init.Equal(wi.RF) {
+				if base[assign[k]] == assign[k] || best == "" {
+					best = fmt.Sprintf("%s: initial value %s, stated %s", sp.name, clip(recs[assign[k]].init.String(), 200), sp.init)
+				}
+				return false
+			}
+		}
+		for k, sp := range specs {
 			wn, err := e.Parse(sp.next)
 			if err != nil {
 				panic(specErr(err.Error()))
 			}
-			if !recs[assign[k]].init.Equal(wi.RF) {
-				best = fmt.Sprintf("%s: initial value %s, stated %s", sp.name, clip(recs[assign[k]].init.String(), 200), sp.init)
-				return false
-			}
-			if !recs[assign[k]].next.Equal(wn.RF) {
+			if !recs[assign[k]].next.Equal(wn.RF) && !(len(noflip) > 0 && b.X.SimplifyUnder(recs[assign[k]].next, noflip).Equal(b.X.SimplifyUnder(wn.RF, noflip))) {
 				best = fmt.Sprintf("%s: step computes %s, stated %s = %s", sp.name, clip(recs[assign[k]].next.String(), 300), sp.next, clip(wn.RF.String(), 300))
 				return false
 			}
@@ -966,15 +1110,15 @@ func (b *B) LoopSystem(rule, construct, where string, fc *FC, from *RF, env *Spe
 			return check()
 		}
 		for i := range phis {
-			if used[i] {
+			if used[base[i]] {
 				continue
 			}
-			used[i] = true
+			used[base[i]] = true
 			assign[k] = i
 			if try(k + 1) {
 				return true
 			}
-			used[i] = false
+			used[base[i]] = false
 		}
 		return false
 	}
@@ -1219,6 +1363,9 @@ func (x *Extractor) EquivByCases(a, b *RF, depth int) bool {
 				if sub := solveZero(x.S, d, a2, b2); sub != nil {
 					a2, b2 = a2.Subst(sub), b2.Subst(sub)
 				}
+			}
+			if os.Getenv("GMSA_TRACE_EQ") == "3" {
+				fmt.Fprintf(os.Stderr, "EQ-REGION depth=%d region=%d\n  a2=%s\n  b2=%s\n", depth, reg, clip(a2.String(), 300), clip(b2.String(), 300))
 			}
 			if !x.EquivByCases(a2, b2, depth+1) {
 				return false
@@ -1648,30 +1795,328 @@ func (b *B) fullScanFrom(rule, construct, where string, fc *FC, idx, n *RF, maxF
 		b.R.Fail(rule, construct, where, "the first index visited is "+clip(first.String(), 80)+", not 0")
 		return false
 	}
-	ifi, ok := hdr.Instrs[len(hdr.Instrs)-1].(*ssa.If)
-	if !ok {
-		b.R.Fail(rule, construct, where, "the loop has no bound test at its header")
+	l, cond, guard, msg := b.loopGuard(lfc, hdr)
+	if msg != "" {
+		b.R.Fail(rule, construct, where, msg)
 		return false
 	}
-	cond := lfc.Val(ifi.Cond)
 	want := s.Cmp("<", idx, n)
 	if !(cond.Equal(want) || b.X.EquivByCases(cond, want, 0)) {
 		b.R.Fail(rule, construct, where, "the loop runs while "+clip(cond.String(), 120)+", not while index < "+clip(n.String(), 60)+": not every element is visited")
 		return false
 	}
-	var l *Loop
+	if msg := b.leftEarly(lfc, l, guard); msg != "" {
+		b.R.Fail(rule, construct, where, msg)
+		return false
+	}
+	b.R.OK(rule, construct, where, "visits every index 0.."+clip(n.String(), 40)+"-1 once, in order")
+	return true
+}
+
+// BoundedOrPanics: the loop l runs a bounded number of iterations and its
+// exhaustion panics. Decided on the loop's conditions however the test is
+// placed (header bound, test inside the body, countdown, `==` against the
+// limit) and whether convergence leaves by a return or through a latch flag:
+// there is an integer counter k (constant start, constant step) and a
+// comparison X of k with a constant such that (a) no back edge is taken once X
+// holds, (b) once X holds — with no latch flag flipped — the function panics,
+// and (c) X becomes true after finitely many steps of k.
+func (b *B) BoundedOrPanics(fc *FC, l *Loop) (bool, string) {
+	s, X := b.X.S, b.X
+	hdr := l.Header
+	var cont, panicCond *RF
+	msg := ""
+	func() {
+		defer func() {
+			if rec := recover(); rec != nil {
+				if e, ok := rec.(anchorErr); ok {
+					msg = string(e)
+					return
+				}
+				panic(rec)
+			}
+		}()
+		cont = fc.ContinueCond(hdr)
+		panicCond = s.False()
+		for bi := range l.Body {
+			blk := fc.Fn.Blocks[bi]
+			for _, sc := range fc.Ctx.LiveSuccs(blk) {
+				if l.Body[sc.Index] {
+					continue
+				}
+				ec := s.And(fc.ReachCondFrom(hdr, blk), fc.edgeCond(blk, sc))
+				for _, pb := range fc.Fn.Blocks {
+					if _, isP := pb.Instrs[len(pb.Instrs)-1].(*ssa.Panic); !isP || !fc.Ctx.Reach[pb.Index] {
+						continue
+					}
+					if pb == sc {
+						panicCond = s.Or(panicCond, ec)
+					} else if fc.Ctx.Dominates(sc, pb) {
+						panicCond = s.Or(panicCond, s.And(ec, fc.ReachCondFrom(sc, pb)))
+					}
+				}
+			}
+		}
+	}()
+	if msg != "" {
+		return false, msg
+	}
+	var flags []Assumption
+	for _, lf := range fc.latchFlags(hdr) {
+		flags = append(flags, Assumption{Cond: lf.atom, True: lf.init})
+	}
+	why := "no counter compared with a constant"
+	for _, in := range hdr.Instrs {
+		ph, ok := in.(*ssa.Phi)
+		if !ok {
+			break
+		}
+		if !isIntType(ph.Type()) {
+			continue
+		}
+		k := fc.Val(ph)
+		kat := k.SingleAtom()
+		if kat == nil || X.phiOf[kat.ID] != ph {
+			continue
+		}
+		var ki, kn *RF
+		func() {
+			defer func() { recover() }()
+			ki, kn = fc.Recurrence(k)
+		}()
+		if ki == nil || kn == nil {
+			continue
+		}
+		c0, isC := ki.IsConst()
+		d, isD := kn.Sub(k).IsConst()
+		if !isC || !isD || d.Sign() == 0 || !c0.IsInt() || !d.IsInt() {
+			continue
+		}
+		seen := map[AtomID]bool{}
+		for _, src := range []*RF{cont, panicCond} {
+			for _, t := range src.Atoms(true) {
+				if seen[t.ID] || !isCmpName(t.Name) || len(t.Args) != 2 {
+					continue
+				}
+				seen[t.ID] = true
+				// a comparison of k (plus a constant) with a constant
+				onlyK := true
+				for _, a := range s.atomRF(t.ID).Atoms(true) {
+					if a.ID != t.ID && a.ID != kat.ID {
+						onlyK = false
+					}
+				}
+				if !onlyK || len(FindAtomID(s.atomRF(t.ID), kat.ID)) == 0 {
+					continue
+				}
+				for _, neg := range []bool{false, true} {
+					x := s.atomRF(t.ID)
+					if neg {
+						x = s.Not(x)
+					}
+					as := []Assumption{{Cond: s.atomRF(t.ID), True: !neg}}
+					if !X.SimplifyUnder(cont, as).Equal(s.False()) {
+						continue
+					}
+					if !X.SimplifyUnder(panicCond, append(append([]Assumption{}, as...), flags...)).Equal(s.True()) {
+						why = "exhausting the counter (" + clip(x.String(), 80) + ") does not lead to the panic"
+						continue
+					}
+					// (c) reached after finitely many steps: far along the counter's direction for an
+					// ordering test; at the limit itself, on the counter's path, for an equality test
+					reached := false
+					far := new(big.Rat).Add(c0, new(big.Rat).Mul(d, big.NewRat(1<<40, 1)))
+					if x.Subst(map[AtomID]*RF{kat.ID: s.Const(far)}).Equal(s.True()) {
+						reached = true
+					} else {
+						for _, side := range t.Args {
+							if cv, ok := side.IsConst(); ok && cv.IsInt() {
+								for off := int64(-2); off <= 2; off++ {
+									kv := new(big.Rat).Add(cv, big.NewRat(off, 1))
+									steps := new(big.Rat).Quo(new(big.Rat).Sub(kv, c0), d)
+									if steps.IsInt() && steps.Sign() >= 0 && x.Subst(map[AtomID]*RF{kat.ID: s.Const(kv)}).Equal(s.True()) {
+										reached = true
+									}
+								}
+							}
+						}
+					}
+					if !reached {
+						why = "the counter never reaches " + clip(x.String(), 80)
+						continue
+					}
+					return true, "counter " + kat.Name + " from " + c0.RatString() + " by " + d.RatString() + "; exhausted when " + clip(x.String(), 80)
+				}
+			}
+		}
+	}
+	return false, why
+}
+
+// FindAtomID: occurrences (deep) of the atom id in r.
+func FindAtomID(r *RF, id AtomID) []*Atom {
+	var out []*Atom
+	for _, a := range r.Atoms(true) {
+		if a.ID == id {
+			out = append(out, a)
+		}
+	}
+	return out
+}
+
+// loopGuard: the condition under which the loop headed by hdr runs another
+// iteration's body — the header's test together with the tests of a
+// short-circuit chain sharing its exit (`for a && b`) — with dead latch flags
+// at their initial value (see latch); guard holds the blocks of that chain.
+func (b *B) loopGuard(lfc *FC, hdr *ssa.BasicBlock) (l *Loop, cond *RF, guard map[int]bool, msg string) {
+	s := b.X.S
 	for _, ll := range lfc.Ctx.Loops() {
 		if ll.Header == hdr {
 			l = ll
 		}
 	}
-	if l == nil || !l.Body[hdr.Succs[0].Index] {
-		b.R.Fail(rule, construct, where, "the bound test does not lead into the loop body")
+	if l == nil {
+		return nil, nil, nil, "loop not found"
+	}
+	if _, ok := hdr.Instrs[len(hdr.Instrs)-1].(*ssa.If); !ok {
+		return nil, nil, nil, "the loop has no bound test at its header"
+	}
+	var exit, body *ssa.BasicBlock
+	for _, sc := range hdr.Succs {
+		if l.Body[sc.Index] {
+			body = sc
+		} else {
+			exit = sc
+		}
+	}
+	if exit == nil || body == nil {
+		return nil, nil, nil, "the bound test does not lead into the loop body"
+	}
+	guard = map[int]bool{hdr.Index: true}
+	cond = lfc.edgeCond(hdr, body)
+	cur := body
+	for n := 0; n < 6; n++ {
+		if len(cur.Preds) != 1 {
+			break
+		}
+		if _, ok := cur.Instrs[len(cur.Instrs)-1].(*ssa.If); !ok {
+			break
+		}
+		pure := true
+		for _, in := range cur.Instrs[:len(cur.Instrs)-1] {
+			switch in.(type) {
+			case *ssa.UnOp, *ssa.BinOp, *ssa.FieldAddr, *ssa.IndexAddr, *ssa.Index, *ssa.Field, *ssa.Convert, *ssa.ChangeType, *ssa.DebugRef:
+			case *ssa.Call:
+				if bi, ok := in.(*ssa.Call).Call.Value.(*ssa.Builtin); !ok || (bi.Name() != "len" && bi.Name() != "cap") {
+					pure = false
+				}
+			default:
+				pure = false
+			}
+		}
+		var inner *ssa.BasicBlock
+		toExit := false
+		for _, sc := range cur.Succs {
+			if sc == exit {
+				toExit = true
+			} else if l.Body[sc.Index] {
+				inner = sc
+			}
+		}
+		if !pure || !toExit || inner == nil {
+			break
+		}
+		guard[cur.Index] = true
+		cond = s.And(cond, lfc.edgeCond(cur, inner))
+		cur = inner
+	}
+	sub := map[AtomID]*RF{}
+	for _, lf := range lfc.latchFlags(hdr) {
+		if lf.dead {
+			if lf.init {
+				sub[lf.atom.SingleAtom().ID] = s.True()
+			} else {
+				sub[lf.atom.SingleAtom().ID] = s.False()
+			}
+		}
+	}
+	if len(sub) > 0 {
+		cond = cond.Subst(sub)
+	}
+	return l, cond, guard, ""
+}
+
+// ReturnPhase: how the return rt relates to the loop carrying the atom
+// `carried`: "mid" when it is reached by leaving the loop from inside an
+// iteration (past the guard: the values it uses are this iteration's updated
+// ones), "exit" when it is reached only through the loop's guard failing (the
+// loop-carried values it sees are those left by the last completed
+// iteration), "" when both or neither apply.
+func (b *B) ReturnPhase(fc *FC, rt *ssa.Return, carried *RF) string {
+	at := carried.SingleAtom()
+	if at == nil {
+		return ""
+	}
+	ph, ok := b.X.phiOf[at.ID]
+	if !ok {
+		return ""
+	}
+	l, _, guard, msg := b.loopGuard(fc, ph.Block())
+	if msg != "" {
+		return ""
+	}
+	reaches := func(from *ssa.BasicBlock) bool {
+		seen := map[int]bool{}
+		stack := []*ssa.BasicBlock{from}
+		for len(stack) > 0 {
+			x := stack[len(stack)-1]
+			stack = stack[:len(stack)-1]
+			if seen[x.Index] || l.Body[x.Index] {
+				continue
+			}
+			seen[x.Index] = true
+			if x == rt.Block() {
+				return true
+			}
+			stack = append(stack, fc.Ctx.LiveSuccs(x)...)
+		}
 		return false
+	}
+	mid, exit := false, false
+	for bi := range l.Body {
+		blk := fc.Fn.Blocks[bi]
+		for _, sc := range fc.Ctx.LiveSuccs(blk) {
+			if l.Body[sc.Index] || !reaches(sc) {
+				continue
+			}
+			if guard[bi] {
+				exit = true
+			} else {
+				mid = true
+			}
+		}
+	}
+	switch {
+	case mid && !exit:
+		return "mid"
+	case exit && !mid:
+		return "exit"
+	}
+	return ""
+}
+
+// leftEarly: a message when the loop can be left from inside an iteration
+// (past its guard) other than by a return or panic with its own result.
+func (b *B) leftEarly(lfc *FC, l *Loop, guard map[int]bool) string {
+	var exit *ssa.BasicBlock
+	for _, sc := range l.Header.Succs {
+		if !l.Body[sc.Index] {
+			exit = sc
+		}
 	}
 	for bi := range l.Body {
 		blk := lfc.Fn.Blocks[bi]
-		if blk == hdr {
+		if guard[bi] {
 			continue
 		}
 		for _, sc := range lfc.Ctx.LiveSuccs(blk) {
@@ -1681,16 +2126,14 @@ func (b *B) fullScanFrom(rule, construct, where string, fc *FC, idx, n *RF, maxF
 				last := sc.Instrs[len(sc.Instrs)-1]
 				_, isPanic := last.(*ssa.Panic)
 				_, isRet := last.(*ssa.Return)
-				if (isPanic || isRet) && sc != hdr.Succs[1] {
+				if (isPanic || isRet) && sc != exit {
 					continue
 				}
-				b.R.Fail(rule, construct, where, "the loop can be left from inside an iteration (not every element is visited)")
-				return false
+				return "the loop can be left from inside an iteration (not every element is visited)"
 			}
 		}
 	}
-	b.R.OK(rule, construct, where, "visits every index 0.."+clip(n.String(), 40)+"-1 once, in order")
-	return true
+	return ""
 }
 
 // TDistCDF: the Student-t distribution function, decided branch by branch so
@@ -1949,44 +2392,19 @@ func (b *B) fullScanDown(rule, construct, where string, lfc *FC, hdr *ssa.BasicB
 		b.R.Fail(rule, construct, where, "the first index of the descending scan is "+clip(first.String(), 80)+", not "+clip(n.String(), 40)+"-1")
 		return false
 	}
-	ifi, ok := hdr.Instrs[len(hdr.Instrs)-1].(*ssa.If)
-	if !ok {
-		b.R.Fail(rule, construct, where, "the loop has no bound test at its header")
+	l, cond, guard, msg := b.loopGuard(lfc, hdr)
+	if msg != "" {
+		b.R.Fail(rule, construct, where, msg)
 		return false
 	}
-	cond := lfc.Val(ifi.Cond)
 	want := s.Cmp("<=", s.Int(0), idx)
 	if !(cond.Equal(want) || b.X.EquivByCases(cond, want, 0)) {
 		b.R.Fail(rule, construct, where, "the descending loop runs while "+clip(cond.String(), 120)+", not while 0 <= index: not every element is visited")
 		return false
 	}
-	var l *Loop
-	for _, ll := range lfc.Ctx.Loops() {
-		if ll.Header == hdr {
-			l = ll
-		}
-	}
-	if l == nil || !l.Body[hdr.Succs[0].Index] {
-		b.R.Fail(rule, construct, where, "the bound test does not lead into the loop body")
+	if msg := b.leftEarly(lfc, l, guard); msg != "" {
+		b.R.Fail(rule, construct, where, msg)
 		return false
-	}
-	for bi := range l.Body {
-		blk := lfc.Fn.Blocks[bi]
-		if blk == hdr {
-			continue
-		}
-		for _, sc := range lfc.Ctx.LiveSuccs(blk) {
-			if !l.Body[sc.Index] {
-				last := sc.Instrs[len(sc.Instrs)-1]
-				_, isPanic := last.(*ssa.Panic)
-				_, isRet := last.(*ssa.Return)
-				if (isPanic || isRet) && sc != hdr.Succs[1] {
-					continue
-				}
-				b.R.Fail(rule, construct, where, "the loop can be left from inside an iteration (not every element is visited)")
-				return false
-			}
-		}
 	}
 	b.R.OK(rule, construct, where, "visits every index "+clip(n.String(), 40)+"-1..0 once, in descending order")
 	return true
